@@ -118,6 +118,10 @@ def witness_crate(d: Decl, extra_inputs=()):
     body = ['fn check_one(x: %s, label: &str, setting: &str, n: &mut usize) {\n' % I,
             '    let expected = %s;\n' % exp,
             '    report("%s", label, setting, %s, expected.clone(), n);\n' % ('try_new' if has_v else 'new', real_ctor)]
+    if has_v and d.custom_validation is None:
+        # C16 probe: the constructor's verdict and, for a rejection, the Display text of the error
+        body.append('    match %s::try_new(x.clone()) { Ok(_) => println!("{{\\"probe\\":\\"{}\\",\\"setting\\":\\"{}\\",\\"verdict\\":\\"Ok\\",\\"message\\":\\"\\"}}", esc(label), esc(setting)), '
+                    'Err(e) => println!("{{\\"probe\\":\\"{}\\",\\"setting\\":\\"{}\\",\\"verdict\\":\\"{:?}\\",\\"message\\":\\"{}\\"}}", esc(label), esc(setting), e, esc(&e.to_string())) }\n' % S)
     if 'TryFrom' in d.derives:
         if has_v:
             body.append('    report("TryFrom", label, setting, format!("{:?}", %s::try_from(x.clone()).map(|v| v.into_inner())), expected.clone(), n);\n' % S)
@@ -232,6 +236,7 @@ def run_witness(d: Decl, extra_inputs=(), features=()):
     if rc != 0:
         return None, err[-3000:]
     res = []
+    probes = []
     for l in out.splitlines():
         try:
             j = json.loads(l)
@@ -239,4 +244,53 @@ def run_witness(d: Decl, extra_inputs=(), features=()):
             continue
         if 'entry' in j:
             res.append(j)
-    return res, out[-2000:]
+        elif 'probe' in j:
+            probes.append(j)
+    res.extend(c16_witnesses(d, probes))
+    return res, '\n'.join(l for l in out.splitlines() if '"probe"' not in l)[-2000:]
+
+
+def c16_witnesses(d, probes):
+    """C16: find a probed value for which what the real message states (phrase table, bound read
+    from the message text) disagrees with the real constructor's verdict."""
+    import re
+    from .c16 import stated_relation
+    if len([v for v in d.validators if v.kind != 'not_empty']) != 1 or d.family == 'any':
+        return []
+    msgs = {}
+    for p in probes:
+        if p['verdict'] != 'Ok' and p['message']:
+            msgs[(p['setting'], p['verdict'])] = p['message']
+    out = []
+    for (setting, variant), msg in msgs.items():
+        m = re.search(r'must be (?:greater than|greater or equal to|greater than or equal to|less than|less or equal to|less than or equal to|more than|at most|at least) (-?[0-9][0-9_.e+-]*|-?inf|NaN)', msg)
+        rel = stated_relation(re.sub(r'(must be (?:[a-z ]+?)) (-?[0-9][0-9_.e+-]*|-?inf|NaN)', r'\1 {:#?}', msg))
+        if not m or rel is None:
+            continue
+        try:
+            bound = float(m.group(1).rstrip('.'))
+        except ValueError:
+            continue
+        subj, r = rel
+        for p in probes:
+            if p['setting'] != setting:
+                continue
+            lab = p['probe']
+            try:
+                if d.family == 'string':
+                    import ast
+                    x = float(len(ast.literal_eval(lab)))
+                else:
+                    x = float(lab.split('=')[-1].strip())
+            except (ValueError, SyntaxError):
+                continue
+            if x != x:
+                continue
+            stated = {'>': x > bound, '>=': x >= bound, '<': x < bound, '<=': x <= bound}[r]
+            accepted = p['verdict'] == 'Ok'
+            if stated != accepted and abs(x) < 2 ** 53:
+                out.append({'entry': 'MessageTruth', 'input': lab, 'bounds': setting,
+                            'real': 'constructor %s the value' % ('accepts' if accepted else 'rejects'),
+                            'expected': 'message %r states the value is %s' % (msg, 'allowed' if stated else 'forbidden')})
+                break
+    return out[:3]
